@@ -22,7 +22,8 @@ ASSUMPTIONS = [
     "general (non power-of-two) scale factors are asserted on white/AR(1) records only, where the "
     "rounding of c*x cannot exceed 1e-11 of any bin",
 ]
-DECIDING_COUNTERS = ["calibrations", "calibrations_by_fres", "enbw_checked", "scale_pairs",
+DECIDING_COUNTERS = ["calibrations", "calibrations_by_fres", "compute_path_calibrations",
+                     "enbw_checked", "scale_pairs",
                      "fs_law_asserted"]
 MIN_NONTRIVIAL = {"quick": 400, "thorough": 8000}
 JOBS = {"quick": 8, "thorough": 16}
@@ -139,6 +140,37 @@ def plan_calibration_case(rec, seedt):
     Ls = [L for L in Ls if L / 2 - ml > ml + 1 and L >= 64]
     if len(Ls) > 6:
         Ls = list(rng.choice(Ls, size=6, replace=False))
+    # (i) through compute(): a sinusoid placed exactly ON a plan frequency f_j is analysed there
+    # with L_j, so its bin must read A^2/2 - in the full analysis and in a band-restricted one.
+    try:
+        p0 = an0.plan()
+        cand = [j for j in range(len(p0["f"]))
+                if p0["L"][j] >= 64 and ml + 0.5 < p0["b"][j] < p0["L"][j] / 2 - ml - 0.5]
+        if cand:
+            j = int(rng.choice(cand))
+            fj, Lj = float(p0["f"][j]), int(p0["L"][j])
+            t = np.arange(N)
+            x = A * np.sin(2 * math.pi * fj / fs * t + rng.uniform(0, 6.28))
+            tol = 4 * 10 ** (-psll / 20) + 1e-9
+            for band in (None, (fj * 0.97, fj * 1.03), (float(p0["f"][max(0, j - 2)]), fj)):
+                kw = dict(win="kaiser", psll=psll, scheduler=sched, Jdes=30, Kdes=10, order=0)
+                if band is not None:
+                    kw["band"] = band
+                r = SpectrumAnalyzer(x, fs, **kw).compute()
+                k = int(np.argmin(np.abs(np.asarray(r.f) - fj)))
+                rec.count("compute_path_calibrations")
+                if abs(float(r.f[k]) - fj) > 1e-12 * fj:
+                    rec.violation("band-loses-bin", f"band {band}: no bin at the plan frequency {fj!r}")
+                    continue
+                err = abs(float(r.ps[k]) / (A * A / 2) - 1)
+                rec.ratio("power_err_over_tol[compute-path]", err / tol)
+                if not (err <= tol):
+                    rec.violation("sinusoid-power",
+                                  f"compute() with band={band}: sinusoid on the plan bin f={fj:.6g} "
+                                  f"(L={Lj}) reads ps={float(r.ps[k])!r}, A^2/2={A * A / 2!r} (rel err "
+                                  f"{err:.3e} > {tol:.3e}); scheduler {sched}, psll {psll:.1f}")
+    except ValueError as e:
+        rec.blocked(f"analysis rejected: {e}")
     for L in Ls:
         L = int(L)
         b0 = float(rng.uniform(ml, L / 2 - ml))
@@ -237,6 +269,12 @@ def scaling_case(rec, seedt, tier):
 
     # ---- sampling-rate relabelling -----------------------------------------------
     a = float(rng.choice([2.0, 0.5, 1024.0, 2.0 ** -10, 3.3, 0.1, 1e-3, 1e4]))
+    if exact and a not in (2.0, 0.5, 1024.0, 2.0 ** -10):
+        # a factor that is not a power of two re-rounds omega = 2*pi*f/fs; on records with a
+        # large offset / dynamic range (only drawn in the 'exact' class) the leakage gradient
+        # dX/domega is set by the offset, not by the bin's own value, so no per-bin relative
+        # tolerance is meaningful there.  Those records get exact (power-of-two) factors.
+        a = float(rng.choice([2.0, 0.5, 1024.0, 2.0 ** -10]))
     try:
         anA = SpectrumAnalyzer(np.vstack([x, y]), fs, **kw)
         anB = SpectrumAnalyzer(np.vstack([x, y]), a * fs, **kw)
